@@ -94,7 +94,8 @@ def main():
     # lists
     b = fn_body(p, "parse_2_elem_f64_arr")
     fact("pair", ",".join(re.findall(r'tag::<_, _, Error<&str>>\("(.)"\)', b)) + ";" + str(len(re.findall(r"parse_expression::<0, _>\(expr, context\)\?", b)))
-         + (";eval-empty" if "Ok((expr, [v1.eval(&[]), v2.eval(&[])]))" in b else ""))
+         + (";eval-empty" if "Ok((expr, [v1.eval(&[]), v2.eval(&[])]))" in b else "")
+         + (";safe-eval-empty" if re.search(r"match \(v1\.safe_eval\(&\[\]\), v2\.safe_eval\(&\[\]\)\) \{\s*\(Some\(x1\), Some\(x2\)\) => Ok\(\(expr, \[x1, x2\]\)\),\s*_ => Err\(nom::Err::Error\(", b) else ""))
     b = fn_body(p, "parse_list_of_elem")
     fact("list", ",".join(re.findall(r'tag::<_, _, Error<&str>>\("(.)"\)', b)) + (";first-then-loop" if "let (mut expr, v) = elem_parser(expr)?;" in b and "let (nexpr, v) = elem_parser(nexpr)?;" in b else ""))
     b = fn_body(p, "compile_interval_list")
